@@ -135,7 +135,7 @@ VALUE_WANT = {
     "Null": r'::write\(&arg2, &\*const:"null"\)',
     "Enum": r"::write\(&arg2, &\*<Name as Deref>::deref\(&arg1\.as:Enum\.0\)",
     "String": r"serialize_string_value\(&arg2, const:false, .*arg1\.as:String\.0",
-    "Variable": r'Display>::fmt\(&Arguments::new\(&const:\*b"\\x01\$\\xc0\\x00", &array\(Argument::new_display\(&\*tuple\(&&arg1\.as:Variable\.0\)',
+    "Variable": r'Display>::fmt\(&Arguments::new\(&const:\*b"\\x01\$\\xc0\\x00", &array\(Argument::new_display\((&\*tuple\()?&&arg1\.as:Variable\.0\)',
     "Float": r"Display>::fmt\(&&arg1\.as:Float\.0, &arg2\.output\)",
     "Int": r"Display>::fmt\(&&arg1\.as:Int\.0, &arg2\.output\)",
     "List": r'comma_separated\(&arg2, &\*const:"\[", &\*const:"\]", .*arg1\.as:List\.0',
